@@ -106,6 +106,14 @@ def generate(rng, tier="quick"):
             op["ref"] = rng.choice(refs + [None])
             op["body_raises"] = rng.random() < 0.5
         ops.append(op)
+    if rng.random() < 0.03 and len(ops) >= 2:
+        # a long-lived validator that has seen MANY remote documents (whatever bound a resolver puts on what it keeps
+        # must never cost it its own root schema or the caller's store documents): 70-140 tiny documents, all
+        # resolved by one operation somewhere before the end of the history
+        n = rng.choice([70, 100, 140])
+        for j in range(n):
+            world["docs"]["http://sim.test/bulk/%d.json" % j] = {"definitions": {"n0": {"type": "integer"}}}
+        ops.insert(rng.randrange(0, len(ops) - 1), {"op": "resolve_bulk", "n": n})
     return {"property": PROPERTY, "world": world, "cfg": cfg, "ops": ops,
             "requests": rng.random() < 0.4}
 
